@@ -74,6 +74,19 @@ func (w *World) foldRound(overlay map[string][]byte, st *foldState) map[string][
 	if len(out) > 0 {
 		return out
 	}
+	// lookups in new package-level tables of functions are read as the switch they stand for (detable.go)
+	for _, p := range w.Pkgs {
+		rel := relOfPkg(p.Types)
+		if tab.Funcs[rel] == nil {
+			continue
+		}
+		for name, b := range w.detable(p, tab.Types[rel], tab.Funcs[rel]) {
+			out[name] = b
+		}
+	}
+	if len(out) > 0 {
+		return out
+	}
 	// calls of new generic helpers with concrete type arguments go to specialised copies (monomorph.go)
 	for _, p := range w.Pkgs {
 		rec := tab.Funcs[relOfPkg(p.Types)]
